@@ -274,6 +274,11 @@ def execute(case):
                         at_gate.pop(b).set()
                 await vclock.quiescent()
                 snapshot()
+            if "f" not in fin and not drift and not at_gate and not sched and case.get("fin") in ("ret", "raised"):
+                # the specification says start_component is over by now: give the real one (virtual) time before calling it stuck
+                log(ev="grace")
+                await anyio.sleep(2 * TIMEOUT + 5)
+                await vclock.quiescent()
             if "f" not in fin and not drift and not at_gate:
                 log(ev="stuck")
             if drift:
@@ -350,7 +355,7 @@ def family_check(prop: str, tier: str, seed: int, cfgs: list[tuple[str, str]], t
         if len(c["hist"]) >= 2:
             nontrivial.add(json.dumps([c["prog"], c["hist"]], sort_keys=True))
         if not v["ok"]:
-            rep.violations.append(core.Violation(prop, v["why"], f"{prop}:{v['why']}", {"case": {k: c[k] for k in c if k != "fin"}}, {"events": t["events"][:80], "step": v["step"]}))
+            rep.violations.append(core.Violation(prop, v["why"], f"{prop}:{v['why']}", {"case": c}, {"events": t["events"][:80], "step": v["step"]}))
     if not need_hits <= set(hits) and not rep.violations:
         raise core.MachineryError(f"vacuous: monitor clauses never exercised: {sorted(need_hits - set(hits))}")
     rep.distinct_nontrivial = len(nontrivial)
